@@ -30,7 +30,7 @@ RULE = (
     "delete, issubset/issuperset/isdisjoint/==, match, ImmutableRdataset wrapping), operands aliased (a op a) in about "
     "one case in five; Set histories over integers 0..7; Rdataset/RRset histories over pools of real records per type "
     "(A, MX with case-variant and relative exchanges, TXT, CNAME and SOA singletons, RRSIG covering two types, CH TXT), "
-    "TTLs from {0,1,5,60,300,3600,2^31-1}; every record also through other object routes (its GenericRdata twin via "
+    "TTLs from {0,1,5,60,300,3600,2^31-1,2^31,2^32-1}; every record also through other object routes (its GenericRdata twin via "
     "to_generic and via GenericRdata(class, type, wire), a re-parsed typed instance, a subclass instance), in the pools of "
     "the set histories and in the pair/triple universe; record pairs/triples from the same pools plus case-swapped texts of every "
     "type of tests/example; a case is non-trivial if its key (kind + script) is new"
@@ -49,7 +49,7 @@ ASSUMPTIONS = [
     "copy/pickle and dns.immutable.constify are checked by the direct oracle only (not modelled)",
 ]
 
-TTLS = [0, 1, 5, 60, 300, 3600, 2 ** 31 - 1]
+TTLS = [0, 1, 5, 60, 300, 3600, 2 ** 31 - 1, 2 ** 31, 2 ** 32 - 1]
 
 
 # ------------------------------------------------------------------------------------------------
@@ -440,7 +440,7 @@ def gen_rds_script(rng):
     main = rng.choice(["A", "A", "MX", "MX", "TXT", "CNAME", "SOA", "RRSIG", "RRSIG"])
     others = [main, main, main, main, rng.choice(list(P))]
     script = []
-    flavor = rng.choice(["rds", "rds", "rrset"])
+    flavor = rng.choice(["rds", "rds", "rrset", "mixed"])
     for r in range(4):
         lab = rng.choice(others)
         c, t = POOL_META[lab]
@@ -498,7 +498,7 @@ def rds_snapshot(r):
 
 
 def new_rds(flavor, c, t, cov, ttl, idx):
-    if flavor == "rrset":
+    if flavor == "rrset" or (flavor == "mixed" and (idx + c + t + ttl) % 2 == 0):
         r = dns.rrset.RRset(dns.name.from_text(f"n{idx}.example."), c, t, cov)
         r.ttl = ttl
         return r
@@ -765,13 +765,15 @@ def run_rds_script(ctx, case, rep):
                     got = regs[a] == regs[b]
                     hdr = lambda r: (int(r.rdclass), int(r.rdtype), int(r.covers))
                     exp = hdr(regs[a]) == hdr(regs[b]) and A == B
-                    if flavor == "rrset" and isinstance(regs[a], dns.rrset.RRset) and isinstance(regs[b], dns.rrset.RRset):
+                    if isinstance(regs[a], dns.rrset.RRset) and isinstance(regs[b], dns.rrset.RRset):
                         exp = exp and regs[a].name == regs[b].name
+                    if bool(regs[b] == regs[a]) != bool(got):
+                        fail("C07/Rdataset/eq/symmetry", f"{type(regs[a]).__name__} == {type(regs[b]).__name__} is {got}, reversed {regs[b] == regs[a]}")
                     if (regs[a] != regs[b]) == bool(got):
                         fail("C07/Rdataset/ne/spec", "!= is not the negation of ==")
                 if bool(got) != exp:
                     fail(f"C07/Rdataset/{op}/set-theory", f"{rds_state(regs[a])} {op} {rds_state(regs[b])} gave {got}")
-                out = None if (op == "eq" and flavor == "rrset") else ("true" if got else "false")
+                out = None if (op == "eq" and flavor != "rds") else ("true" if got else "false")
                 if out is None:
                     # RRset equality also compares owner names, which the model does not carry: oracle only
                     out = "true" if (hdr(regs[a]) == hdr(regs[b]) and A == B) else "false"
@@ -1211,6 +1213,80 @@ def eval_setapi(ctx, a, b, rep):
     S.update(S)
     if list(S) != ea:
         ctx.fail("C07/Set/update/self", f"update(self) gave {list(S)}", rep)
+    if (A == B) != (B == A):
+        ctx.fail("C07/Set/eq/symmetry", f"{a} == {b}: {A == B} vs reversed {B == A}", rep)
+    # indices islice refuses: ValueError and nothing changes
+    for bad in (-1, -len(ea) - 1, slice(-1, None), slice(None, -1), slice(0, 2, -1), slice(0, 2, 0)):
+        for opn, fn in (("get", lambda: A[bad]), ("del", lambda: A.__delitem__(bad))):
+            try:
+                fn()
+                ctx.fail("C07/Set/index/negative-accepted", f"{opn} [{bad!r}] on {ea} accepted", rep)
+            except ValueError:
+                pass
+            except Exception as e:
+                ctx.fail("C07/Set/index/negative-accepted", f"{opn} [{bad!r}] raised {type(e).__name__}", rep)
+        if list(A) != ea:
+            ctx.fail("C07/Set/index/negative-changes", f"[{bad!r}] changed the set to {list(A)}", rep)
+    # an element whose comparison raises in the middle of an operation: afterwards the set is still a set made of
+    # its own and the argument's elements, has lost nothing it should keep, and is usable
+    class Boom(BaseException):
+        pass
+
+    class Hostile:
+        def __init__(self, v, fuse):
+            self.v, self.fuse = v, fuse
+
+        def __hash__(self):
+            return 0  # everything collides: __eq__ decides
+
+        def __eq__(self, other):
+            if self.fuse[0] is not None:
+                self.fuse[0] -= 1
+                if self.fuse[0] < 0:
+                    self.fuse[0] = None
+                    raise self.fuse[1]("boom")
+            return isinstance(other, Hostile) and self.v == other.v
+
+        def __repr__(self):
+            return f"H{self.v}"
+
+    for meth in ("union_update", "intersection_update", "difference_update", "symmetric_difference_update", "update", "add",
+                 "discard", "remove", "union", "intersection", "difference", "symmetric_difference"):
+        for exc in (ValueError, KeyError, Boom):
+            for when in (0, 2, 5):
+                fuse = [None, exc]
+                S = dns.set.Set(Hostile(x, fuse) for x in ea)
+                O = dns.set.Set(Hostile(x, fuse) for x in dict.fromkeys(b))
+                before = [h.v for h in S]
+                ob = [h.v for h in O]
+                arg = (Hostile(b[0] if b else 3, fuse) if meth in ("add", "discard", "remove") else O)
+                fuse[0] = when
+                raised = None
+                try:
+                    getattr(S, meth)(arg)
+                except BaseException as e:  # noqa: the injected one, or ValueError of remove()
+                    raised = e
+                fuse[0] = None
+                now = [h.v for h in S]
+                what_ = f"{meth} with {exc.__name__} at comparison {when}: {before} op {ob} -> {now}"
+                if raised is not None and type(raised) is not exc and not (meth == "remove" and isinstance(raised, ValueError)):
+                    ctx.fail(f"C07/Set/{meth}/exception-replaced", f"{what_}: surfaced as {type(raised).__name__}", rep)
+                if len(set(now)) != len(now) or not set(now) <= set(before) | set(ob) | ({arg.v} if not isinstance(arg, dns.set.Set) else set()):
+                    ctx.fail(f"C07/Set/{meth}/after-exception/not-a-set", what_, rep)
+                keep = {"union_update": set(before), "update": set(before), "add": set(before), "intersection_update": set(before) & set(ob),
+                        "difference_update": set(before) - set(ob), "symmetric_difference_update": set(before) - set(ob),
+                        "discard": set(before) - {getattr(arg, "v", None)}, "remove": set(before) - {getattr(arg, "v", None)}}.get(meth, set(before))
+                if raised is not None and not keep <= set(now):
+                    ctx.fail(f"C07/Set/{meth}/after-exception/lost-elements", f"{what_}: {sorted(keep - set(now))} lost", rep)
+                if meth in ("union", "intersection", "difference", "symmetric_difference") and now != before:
+                    ctx.fail(f"C07/Set/{meth}/after-exception/receiver-changed", what_, rep)
+                if [h.v for h in O] != ob:
+                    ctx.fail(f"C07/Set/{meth}/after-exception/argument-changed", what_, rep)
+                # keep using it
+                S.add(Hostile(77, fuse))
+                S.discard(Hostile(77, fuse))
+                if [h.v for h in S] != now:
+                    ctx.fail(f"C07/Set/{meth}/after-exception/unusable", what_, rep)
     if (A == B) != (set(a) == set(b)) or (A != B) == (A == B):
         ctx.fail("C07/Set/eq/set-theory", f"{a} == {b} gave {A == B}", rep)
     ctx.count("setapi")
@@ -1238,12 +1314,18 @@ def eval_rdsapi(ctx, c, rep):
         "rrset.from_rdata_list": lambda: dns.rrset.from_rdata_list(nm, ttl, rds_),
         "rdataset.from_text_list": lambda: dns.rdataset.from_text_list(cls_, typ_, ttl, [r.to_text() for r in rds_],
                                                                         origin=dns.name.root, relativize=False),
+        "rdataset.from_text_list(mnemonics)": lambda: dns.rdataset.from_text_list(
+            dns.rdataclass.to_text(cls_), dns.rdatatype.to_text(typ_), ttl, [r.to_text() for r in rds_], origin=dns.name.root, relativize=False),
+        "rrset.from_text_list(mnemonics)": lambda: dns.rrset.from_text_list(
+            "owner.example.", ttl, dns.rdataclass.to_text(cls_), dns.rdatatype.to_text(typ_), [r.to_text() for r in rds_],
+            origin=dns.name.root, relativize=False),
+        "rrset.from_text": lambda: dns.rrset.from_text("owner.example.", ttl, cls_, typ_, *[r.to_text() for r in rds_]),
         "add-with-ttl": lambda: _add_all(dns.rdataset.Rdataset(cls_, typ_), rds_, ttl),
         "add-with-str-ttl": lambda: _add_all(dns.rdataset.Rdataset(cls_, typ_), rds_, str(ttl)),
         "update_ttl-str": lambda: _add_all(_ttl(dns.rdataset.Rdataset(cls_, typ_), str(ttl)), rds_, None),
     }
     for rn, fn in routes.items():
-        if rn == "rdataset.from_text_list" and any(rd_rel(r) or type(r).__name__ == "GenericRdata" for r in rds_):
+        if "from_text" in rn and any(rd_rel(r) or type(r).__name__ == "GenericRdata" for r in rds_):
             continue
         try:
             got = fn()
@@ -1285,7 +1367,7 @@ def eval_rdsapi(ctx, c, rep):
     if type(plain) is not dns.rdataset.Rdataset or [rd_key(x) for x in plain] != exp_keys or plain.ttl != rr.ttl \
             or int(plain.covers) != cov or not (plain == rr) or not (rr == plain):
         ctx.fail("C07/RRset/to_rdataset/spec", f"to_rdataset() gave {rds_state(plain)}", rep)
-    for dl in (None, 254, 255):
+    for dl in (None, 254, 255, 0):
         for n2 in (nm, twin.name, other_name):
             for c2, t2, v2 in ((cls_, typ_, cov), (cls_, typ_, cov + 1), (cls_ + 1, typ_, cov), (cls_, typ_ + 1, cov)):
                 exp = (n2 != other_name) and (c2, t2, v2) == (cls_, typ_, cov) and dl == deleting
@@ -1326,6 +1408,21 @@ def generate(ctx: Ctx, scale, rng):
         c = {"kind": "set", "script": s}
         ctx.case(("set", json.dumps(s)), sample=c)
         eval_case(ctx, c)
+    for _ in range(n(3)):
+        big = [["new", 0, rng.shuffle(list(range(0, 260)))[: rng.range(200, 260)]],
+               ["new", 1, rng.shuffle(list(range(120, 400)))[: rng.range(150, 270)]]]
+        for op_ in rng.shuffle(["un", "in", "df", "sd", "or", "and", "minus", "xor"]):
+            big.append([op_, 2, rng.below(2), rng.below(2)])
+            big.append([rng.choice(["sub", "sup", "dj", "eq"]), 2, rng.below(2)])
+            big.append([rng.choice(["gets", "dels"]), 2, rng.below(50), rng.choice([None, 100, 255, 256, 300]), rng.choice([1, 2, 7])])
+        for op_ in rng.shuffle(["uu", "iu", "du", "sdu", "ior", "iand", "isub", "ixor"]):
+            big.append(["cp", 3, 0])
+            big.append([op_, 3, rng.choice([1, 1, 3])])
+            big.append(["del", 3, rng.choice([0, 199, 253, 254, 255, 256])])
+            big.append(["pop", 3])
+        c = {"kind": "set", "script": big}
+        ctx.case(("set-big", json.dumps(big[:2])), sample=None)
+        eval_case(ctx, c)
     for _ in range(n(2500)):
         c = dict(gen_rds_script(rng), kind="rds")
         ctx.case(("rds", json.dumps(c["script"]), c["flavor"]), sample=c)
@@ -1343,7 +1440,7 @@ def generate(ctx: Ctx, scale, rng):
     for _ in range(n(300)):
         lab = rng.choice(["A", "MX", "TXT", "CNAME", "SOA", "RRSIG", "RRSIG", "CHTXT"])
         c = {"kind": "rdsapi", "label": lab, "idx": [rng.below(len(P[lab])) for _ in range(rng.range(1, 5))],
-             "ttl": rng.choice(TTLS), "deleting": rng.choice([None, None, 254, 255])}
+             "ttl": rng.choice(TTLS), "deleting": rng.choice([None, None, 254, 255, 0])}
         ctx.case(("rdsapi", str(c)), sample=c)
         eval_case(ctx, c)
     for _ in range(n(6000)):
